@@ -291,6 +291,29 @@ def apply_observe(sess, op):
                 sess.fail("C03", "raises-only-documented", "solve() raised %s(%s)" % (r[1], r[2]), sig=sig)
             if "C05" in E and m.mux() is not None:
                 sess.fail("C05", "mux-is-reported", "solve() raised %s(%s) on a system with a PMux instead of reporting it" % (r[1], r[2]))
+        sl = op.get("sleeper")
+        if sl and getattr(sess, "last_plain_solve_ok", False) and not op.get("kw") and r[1] in ("RuntimeError", "ValueError"):
+            # the only thing added since a successful solve is a branch of its own
+            # whose series element sleeps in the one phase where its load is heavy
+            from .laws import is_active
+
+            ok = all(x in m.comps for x in (sl["src"], sl["sleeper"], sl["load"]))
+            ok = ok and m.kind(sl["src"]) == "Source" and m.comps[sl["src"]]["p"].get("rs") == 0.0 and not m.phase_conf[sl["src"]]
+            ok = ok and list(m.parents[sl["sleeper"]]) == [sl["src"]] and list(m.parents[sl["load"]]) == [sl["sleeper"]]
+            ok = ok and m.kind(sl["load"]) == "ILoad" and sorted(m.descendants(sl["src"])) == sorted([sl["sleeper"], sl["load"]])
+            ok = ok and m.phases_coherent() and sl["off"] in m.sys_phases
+            if ok:
+                cf = m.phase_conf[sl["load"]]
+                ok = isinstance(cf, dict) and all(ph in cf for ph in m.sys_phases)
+                ok = ok and all((not is_active(m.kind(sl["sleeper"]), m.phase_conf[sl["sleeper"]], ph)) or abs(cf[ph]) <= sl["limit"] for ph in m.sys_phases)
+                ok = ok and not is_active(m.kind(sl["sleeper"]), m.phase_conf[sl["sleeper"]], sl["off"])
+            if ok:
+                tag = next((p_ for p_ in ("C06", "C04") if p_ in E), None)
+                sess.stats["sleeper_overload_judged"] += 1
+                if tag:
+                    sess.fail(tag, "sleeping-element-is-off", "solve() raised %s(%s) although the system solved before a separate branch %s -> %s -> %s was added whose series element sleeps in phase %r, the only phase in which its load is heavy" % (r[1], r[2], sl["src"], sl["sleeper"], sl["load"], sl["off"]))
+        if not op.get("kw"):
+            sess.last_plain_solve_ok = False
         if "C03" in E:
             sess.stats["c03_outcome:" + r[1]] += 1
             mi_ = kw.get("maxiter", 10000)
@@ -304,6 +327,10 @@ def apply_observe(sess, op):
                 if modest(m):
                     sess.fail("C03", "modest-system-solved", "solve() raised %s(%s) on a system with a modest-drop steady state" % (r[1], r[2]))
     else:
+        if not op.get("kw"):
+            sess.last_plain_solve_ok = True
+        if op.get("sleeper"):
+            sess.stats["sleeper_overload_solved"] += 1
         table = O.Table(r[1])
         if sess.gen is not None and table.phases:
             sess.gen.last_table = table.comp[table.phases[0]]
